@@ -431,8 +431,17 @@ class Process(Event[V]):
         interrupts = self._interrupts
         env = self.env
         env.active_process = self
-        self.target = event = generator.send(None)  # type: Event
-        env.active_process = None
+        try:
+            self.target = event = generator.send(None)  # type: Event
+        except StopIteration as err:
+            # the generator finished without ever yielding an event
+            self.succeed(err.args[0] if err.args else None)
+            return
+        except BaseException as err:
+            self.fail(err)
+            return
+        finally:
+            env.active_process = None
         while True:
             event = await self._wait_interruptible(event, interrupts)
             try:
